@@ -15,6 +15,7 @@
 //
 #include <assert.h>            // for assert
 #include <ext/alloc_traits.h>  // for __alloc_traits<>::value_type
+#include <algorithm>           // for remove_if
 #include <iomanip>             // for operator<<, setfill, setw
 #include <iostream>            // for operator<<, basic_ostream, ostream, cout
 #include <limits>              // for numeric_limits
@@ -142,8 +143,19 @@ public:
 	// Note that indexing within catalogs[][] is 0-based, unlike the
 	// normal usage for DFS catalogs, because the 0-entry for the disc
 	// title is not included.
-	const std::vector<std::vector<DFS::CatalogEntry>> catalogs =
+	std::vector<std::vector<DFS::CatalogEntry>> catalogs =
 	  root.get_catalog_in_disc_order();
+	// A zero-length file has a start sector but occupies no
+	// sectors, so it plays no part in the computation of the gaps.
+	for (auto& fragment : catalogs)
+	  {
+	    fragment.erase(std::remove_if(fragment.begin(), fragment.end(),
+					  [](const DFS::CatalogEntry& e)
+					  {
+					    return e.file_length() == 0;
+					  }),
+			   fragment.end());
+	  }
 	assert(catalogs.size() <= std::numeric_limits<int>::max());
 	auto start_sec_of_next = [&catalogs, &root]
 	  (unsigned int catalog, unsigned int entry) -> DFS::sector_count_type
